@@ -205,6 +205,81 @@ theorem good_prepareAll (ploidy : Nat) {cutoff : Int} (il : Bool) (samples : Lis
   exact good_prepareAll_fold hc samples {} (fun s hs => hs)
     ⟨fun e he => absurd he (by simp), fun e he => absurd he (by simp)⟩
 
+/-! ### the read loop raises nothing on covered reads -/
+
+/-- what `ReadSetReader` delivers for the positions of `get_variant_information`: alleles 0/1 at positions with phase information -/
+def Covered (info : PhaseInfo) (r : SetRead) : Prop := ∀ v ∈ r.variants, v.allele < 2 ∧ (info.lookup v.pos).isSome
+
+theorem prepareStep_no_error {ploidy : Nat} {info : PhaseInfo} {cutoff : Int} {il : Bool} {st : Prepared}
+    {read : SetRead} {all : List SetRead} (hp : 2 ≤ ploidy) (hst : st.error = none)
+    (hr : Covered info read) (hall : ∀ r ∈ all, Covered info r) :
+    (prepareStep ploidy info cutoff il st read all).error = none := by
+  unfold prepareStep
+  split
+  · exact hst
+  · simp only
+    generalize hg : (read :: if (!il && read.bx.isSome) = true then
+        List.filter (fun r => r.bx == read.bx && r.name != read.name && !st.processed.contains r.name
+          && decide (absDiff read.refStart r.refStart ≤ cutoff)) all else []) = group
+    have hsub : ∀ r ∈ group, Covered info r := by
+      intro r hrg
+      rw [← hg] at hrg
+      rcases List.mem_cons.1 hrg with h | h
+      · rw [h]; exact hr
+      · split at h
+        · exact hall r (List.mem_filter.1 h).1
+        · cases h
+    have hcov : ∀ v ∈ group.flatMap (·.variants), v.allele < 2 ∧ (info.lookup v.pos).isSome := by
+      intro v hv
+      obtain ⟨r, hrg, hvr⟩ := List.mem_flatMap.1 hv
+      exact hsub r hrg v hvr
+    obtain ⟨sc, ha⟩ := accumulate_ok (ploidy := ploidy) (info := info) _ [] hcov
+    have inv : Inv ploidy info (group.flatMap (·.variants)) sc := by simpa using inv_accumulate (inv_nil ploidy info) ha
+    rw [ha]
+    simp only
+    cases hps : pickSet sc with
+    | none => exact hst
+    | some e =>
+      obtain ⟨ps, s⟩ := e
+      simp only
+      have hlen : s.length = ploidy := inv.len _ (pickSet_spec hps).1
+      cases hd : decideScores ps s with
+      | error e =>
+        have := (decideScores_error_iff.1 hd).1
+        omega
+      | untagged => exact hst
+      | tagged h q p => exact hst
+
+theorem prepare_no_error {ploidy : Nat} {info : PhaseInfo} {cutoff : Int} {il : Bool} (hp : 2 ≤ ploidy)
+    {reads : List SetRead} (hall : ∀ r ∈ reads, Covered info r) :
+    ∀ (l : List SetRead) (st : Prepared), (∀ r ∈ l, r ∈ reads) → st.error = none →
+      (l.foldl (fun st r => prepareStep ploidy info cutoff il st r reads) st).error = none := by
+  intro l
+  induction l with
+  | nil => intro st _ h; exact h
+  | cons r rs ih =>
+    intro st hl hst
+    simp only [List.foldl_cons]
+    exact ih _ (fun x hx => hl x (List.mem_cons_of_mem _ hx))
+      (prepareStep_no_error hp hst (hall r (hl r List.mem_cons_self)) hall)
+
+theorem prepareAll_no_error {ploidy : Nat} {cutoff : Int} {il : Bool} (hp : 2 ≤ ploidy)
+    (samples : List (PhaseInfo × List SetRead)) (hcov : ∀ s ∈ samples, ∀ r ∈ s.2, Covered s.1 r) :
+    (prepareAll ploidy cutoff il samples).error = none := by
+  unfold prepareAll
+  suffices h : ∀ (l : List (PhaseInfo × List SetRead)) (st : Prepared), (∀ s ∈ l, s ∈ samples) → st.error = none →
+      (l.foldl (fun st s => prepare ploidy s.1 cutoff il { st with processed := [] } s.2) st).error = none from
+    h samples {} (fun s hs => hs) rfl
+  intro l
+  induction l with
+  | nil => intro st _ h; exact h
+  | cons s ss ih =>
+    intro st hl hst
+    simp only [List.foldl_cons]
+    apply ih _ (fun x hx => hl x (List.mem_cons_of_mem _ hx))
+    unfold prepare
+    exact prepare_no_error hp (hcov s (hl s List.mem_cons_self)) s.2 _ (fun r hr => hr) hst
+
 /-! ### one alignment -/
 
 theorem lookupLast_mem {β} {k : String} {v : β} : ∀ {l : List (String × β)}, lookupLast k l = some v → (k, v) ∈ l := by
